@@ -315,10 +315,10 @@ theorem sdist_reject_no_dash (stem ext : Str) (hext : ext = targz ∨ ext = zip)
   unfold parseSdist
   rcases hext with rfl | rfl
   · have e2 : (stem ++ targz).take ((stem ++ targz).length - 7) = stem := by
-      have := take_append_suffix stem targz; simpa [targz] using this
+      simp [targz]
     simp only [endsWith_append, ite_true, e2, rpartition_nosep 45 stem h]
   · have e2 : (stem ++ zip).take ((stem ++ zip).length - 4) = stem := by
-      have := take_append_suffix stem zip; simpa [zip] using this
+      simp [zip]
     simp only [endsWith_zip_not_targz, endsWith_append, ite_true, Bool.false_eq_true, ite_false, e2,
       rpartition_nosep 45 stem h]
 
